@@ -67,7 +67,38 @@ def vspace(n, tp):
     return sp
 
 
+def const_py(pf, kind, scalar=False):
+    """a constant parameter the way users may legally write it: Python number / list, numpy array, float32 or float64 tensor"""
+    import numpy as np
+    import torch
+    vals = [float(geomgen.pt_eval(t, {})) for t in pf.terms]
+    if kind == "np":
+        return np.float64(vals[0]) if scalar else np.array(vals, dtype=np.float64)
+    if kind in ("f32", "f64"):
+        dt = torch.float32 if kind == "f32" else torch.float64
+        return torch.tensor(vals[0], dtype=dt) if scalar else torch.tensor(vals, dtype=dt)
+    return vals[0] if scalar else vals
+
+
 def vto_tp(n, tp):
+    ck = (n.flags or {}).get("const")
+    if ck and n.kind in PRIMS + ("point", "translate") and not any(p.vars() for p in n.pfs):
+        from torchphysics.problem.domains.domainoperations.translate import Translate as _T
+        D = tp.domains
+        sp = vspace(n, tp)
+        if n.kind == "interval":
+            return D.Interval(sp, const_py(n.pfs[0], ck, True), const_py(n.pfs[1], ck, True))
+        if n.kind == "par":
+            return D.Parallelogram(sp, *[const_py(p, ck) for p in n.pfs])
+        if n.kind == "tri":
+            return D.Triangle(sp, *[const_py(p, ck) for p in n.pfs])
+        if n.kind == "circle":
+            return D.Circle(sp, const_py(n.pfs[0], ck), const_py(n.pfs[1], ck, True))
+        if n.kind == "sphere":
+            return D.Sphere(sp, const_py(n.pfs[0], ck), const_py(n.pfs[1], ck, True))
+        if n.kind == "point":
+            return D.Point(sp, const_py(n.pfs[0], ck))
+        return _T(vto_tp(n.kids[0], tp), const_py(n.pfs[0], ck))
     from torchphysics.problem.domains.domainoperations.union import UnionDomain
     from torchphysics.problem.domains.domainoperations.cut import CutDomain
     from torchphysics.problem.domains.domainoperations.translate import Translate
@@ -372,8 +403,119 @@ class VGen:
         return mode, nd
 
 
+def two_param(rng, base, lo=Fr(1, 4), hi=Fr(1)):
+    """base + a*t + b*D with positive coefficients; `D` is declared with a (bogus) default in the generated function"""
+    a_, b_ = dy(rng, lo, hi, 4), dy(rng, lo, hi, 4)
+    return ("+", ("+", c(base), ("*", c(a_), geomgen.v("t"))), ("*", c(b_), geomgen.v("D")))
+
+
+def make_default_case(ctx, idx):
+    """shape / volume functions with a DEFAULTED argument that the parameter rows supply: the supplied value must win"""
+    rng = ctx.rng
+    kind = rng.choice(["circle", "sphere", "interval", "par", "tri", "uservol", "bdry-circle", "bdry-interval-side", "cut"])
+    dflt = rng.choice(["D", "t"])
+
+    def circ(k="circle"):
+        n = 2 if k == "circle" else 3
+        var = "x" if k == "circle" else "z"
+        return Node(k, var, [PF([c(dy(rng, -1, 1)) for _ in range(n)]), PF([two_param(rng, dy(rng, 0.5, 2))], defaulted=dflt)])
+    if kind in ("circle", "sphere"):
+        node = circ(kind)
+    elif kind == "interval":
+        lb = dy(rng, -2, 1)
+        node = Node("interval", "y", [PF([c(lb)]), PF([two_param(rng, lb + dy(rng, 0.5, 2))], defaulted=dflt)])
+    elif kind in ("par", "tri"):
+        o = [dy(rng, -2, 2), dy(rng, -2, 2)]
+        e1 = two_param(rng, dy(rng, 1, 3))
+        c1 = PF([("+", c(o[0]), e1), c(o[1])], defaulted=dflt)
+        c2 = PF([c(o[0] + dy(rng, -1, 1)), c(o[1] + dy(rng, 1, 3))])
+        pfs = [PF([c(o[0]), c(o[1])]), c1, c2]
+        if rng.random() < 0.5:
+            pfs = [pfs[0], pfs[2], pfs[1]]
+        node = Node(kind, "x", pfs)
+    elif kind == "uservol":
+        node = Node("uservol", None, [PF([two_param(rng, dy(rng, 1, 4))], defaulted=dflt)], [circ()])
+    elif kind == "bdry-circle":
+        node = Node("bdry", None, [], [circ()])
+    elif kind == "bdry-interval-side":
+        lb = dy(rng, -2, 1)
+        iv = Node("interval", "y", [PF([two_param(rng, lb)], defaulted=dflt), PF([("+", two_param(rng, lb), c(dy(rng, 1, 2)))], defaulted=dflt)])
+        node = Node(rng.choice(["bdryL", "bdryR", "bdry"]), None, [], [iv])
+    else:
+        a = circ()
+        node = Node("cut", None, [], [a, inner_shape(rng, a)], dict(contained=True, really_contained=True))
+        node.kids[1].pfs[1].defaulted = dflt
+    k = rng.choice([1, 1, 2, 3])
+    envs = [{p: [str(Fr(rng.randint(0, 16), 16))] for p in ("t", "D")} for _ in range(k)]
+    sigma = None
+    if rng.random() < 0.5:
+        # binding ALL non-defaulted arguments makes partially_evaluate call the function at once with the declared default
+        # (documented: "if the arguments are enough to evaluate the whole function, the output is returned"), so the evaluated
+        # domain no longer listens to the defaulted variable — partial evaluation semantics, C17; not generated here
+        sub = rng.choice([[dflt], ["t", "D"]])
+        sigma = {p: [str(Fr(rng.randint(0, 16), 16))] for p in sub}
+    density = str(rng.choice([Fr(15, 4), Fr(10), Fr(51, 2)])) if k == 1 and rng.random() < 0.7 else None
+    return dict(id=idx, mode="defaults", dom=node.describe(), params=["t", "D"], envs=envs, sigma=sigma, density=density)
+
+
+def make_dtype_case(ctx, idx):
+    """constant parameters written as numbers / lists, numpy arrays, float32 and float64 tensors; with float64 tensors also badly
+    scaled coordinates (offsets up to 1e9, sizes 1..10): the exact value is representable and the library computes in float64"""
+    rng = ctx.rng
+    ck = rng.choice(["list", "np", "f32", "f64", "f64", "f64"])
+    off = Fr(rng.choice([0, 1000, 10 ** 6, 5 * 10 ** 8, 7 * 10 ** 8, 10 ** 9])) if ck == "f64" else Fr(rng.choice([0, 0, 2, -3]))
+    fl = dict(const=ck)
+
+    def prim(var):
+        dim = geomgen.DIM[var]
+        o = [off + dy(rng, -2, 2) for _ in range(dim)]
+        if dim == 1:
+            return Node("interval", var, [PF([c(o[0])]), PF([c(o[0] + dy(rng, 1, 10))])], flags=dict(fl))
+        if dim == 3:
+            return Node("sphere", var, [PF([c(a) for a in o]), PF([c(dy(rng, 0.5, 3))])], flags=dict(fl))
+        kd = rng.choice(["par", "tri", "circle"])
+        if kd == "circle":
+            return Node("circle", var, [PF([c(a) for a in o]), PF([c(dy(rng, 0.5, 3))])], flags=dict(fl))
+        while True:
+            d1 = [dy(rng, -4, 4), dy(rng, -4, 4)]
+            d2 = [dy(rng, -4, 4), dy(rng, -4, 4)]
+            if abs(d1[0] * d2[1] - d1[1] * d2[0]) >= 1:
+                break
+        return Node(kd, var, [PF([c(o[0]), c(o[1])]), PF([c(o[0] + d1[0]), c(o[1] + d1[1])]), PF([c(o[0] + d2[0]), c(o[1] + d2[1])])],
+                    flags=dict(fl))
+    var = rng.choice(["x", "x", "y", "y", "z"])
+    shape = rng.choice(["prim", "prim", "bdry", "cut", "union", "prod", "translate"])
+    a = prim(var)
+    if shape == "prim":
+        node = a
+    elif shape == "bdry":
+        node = Node("bdry", None, [], [a])
+    elif shape == "cut":
+        b = inner_shape(rng, a)
+        b.pfs = [PF([c(x) for x in p.eval({})]) for p in b.pfs]
+        b.flags = dict(fl)
+        node = Node("cut", None, [], [a, b], dict(contained=True, really_contained=True))
+    elif shape == "union":
+        far = Node("translate", var, [PF([c(x) for x in FAR[geomgen.DIM[var]]])], [prim(var)], flags=dict(fl))
+        node = Node("union", None, [], [a, far], dict(disjoint=True, really_disjoint=True))
+    elif shape == "prod":
+        node = Node("prod", None, [], [a, Node("interval", "s", [PF([c(off)]), PF([c(off + dy(rng, 1, 10))])], flags=dict(fl))])
+    else:
+        node = Node("translate", var, [PF([c(dy(rng, -2, 2)) for _ in range(geomgen.DIM[var])])], [a], flags=dict(fl))
+    density = str(rng.choice([Fr(1, 2), Fr(15, 4), Fr(10)])) if rng.random() < 0.6 else None
+    # sample POINTS are float32 by design: with offsets >= 1000 their positions (hence containment filters, grid spacing) are
+    # not meaningful; only the counts that follow from the volume are checked there
+    return dict(id=idx, mode="dtype:" + ck, dom=node.describe(), params=[], envs=[], sigma=None, density=density,
+                rel=1e-11 if ck == "f64" else REL, positions=bool(abs(off) < 1000))
+
+
 def make_case(ctx, idx):
     rng = ctx.rng
+    r0 = rng.random()
+    if r0 < 0.08:
+        return make_default_case(ctx, idx)
+    if r0 < 0.18:
+        return make_dtype_case(ctx, idx)
     params = rng.choice([[], ["t"], ["t"], ["t", "D"]])
     vg = VGen(rng, params)
     depth = rng.choice([1, 2, 2, 3]) if ctx.quick else rng.choice([1, 2, 3, 3, 4])
@@ -493,7 +635,8 @@ def check_density(case, node, dom, pr, rep, extra):
     env = fenv(case["envs"][0]) if case["envs"] else {}
     m = measure(node, env)
     leaf, onb = leaf_of(node)
-    inp = dict(dom=case["dom"], expression=vtokens(node), params=case["params"], envs=case["envs"], density=case["density"])
+    inp = dict(dom=case["dom"], expression=vtokens(node), params=case["params"], envs=case["envs"], density=case["density"],
+               mode=case.get("mode"), rel=case.get("rel"), positions=case.get("positions"))
     if m is None or m <= 0:
         return
     x = float(d) * m
@@ -576,10 +719,13 @@ def check_density(case, node, dom, pr, rep, extra):
                 except Exception:  # noqa
                     rep.count("density-big-raised")
             else:
-                check_grid(rep, inp, base, base_b, env, got, want, x, pts, extra, node)
+                check_grid(rep, inp, base, base_b, env, got, want, x, pts, extra, node, case.get("positions") is not False)
         return
     # Boolean combinations / products
     if top in ("union", "cut") or (top == "uservol"):
+        if case.get("positions") is False:
+            rep.count("density:boolean-skipped(float32 sample points at a badly scaled offset)")
+            return
         return check_boolean_density(case, node, dom, pr, rep, inp, env, d, sample)
     if top == "prod":
         pts, tape, err = sample("random")
@@ -660,7 +806,7 @@ def check_boolean_density(case, node, dom, pr, rep, inp, env, d, sample):
                 rep.fail(f"density sampling of a cut returned {got} points, more than ceil(d*|A|) = {n0}", dict(inp, how=how))
 
 
-def check_grid(rep, inp, base, base_b, env, got, want, x, pts, extra, node):
+def check_grid(rep, inp, base, base_b, env, got, want, x, pts, extra, node, positions=True):
     import torch
     inp = dict(inp, how="grid")
     n0 = max(want)
@@ -685,7 +831,7 @@ def check_grid(rep, inp, base, base_b, env, got, want, x, pts, extra, node):
                 rep.disagree("parallelogram density grid: n1*n2 points with n_i = int(sqrt(n*s_i/s_j))", inp, got, sorted(okc))
             if got > n0:
                 rep.fail(f"grid sampling with density returned {got} points, more than ceil(d*measure) = {n0}", inp)
-            if got and not lattice_complete(pts, base, env, node):
+            if got and positions and not lattice_complete(pts, base, env, node):
                 rep.fail(f"grid sampling with density returned {got} points that do not form a complete regular (barycentric) grid", inp)
         else:
             lo = min(min([tlt] + [tri_count(a, b, True) for a, b in cands]), min(want))
@@ -705,7 +851,7 @@ def check_grid(rep, inp, base, base_b, env, got, want, x, pts, extra, node):
                  f"ceil(d*measure) = {sorted(want)} points", inp)
     elif kind == "sphere" and got not in want:
         rep.fail(f"grid sampling of a ball with density returned {got} points, ceil(d*measure) = {sorted(want)} (grid + random fill) expected", inp)
-    if kind == "interval" and not base_b and got >= 3 and node.kind == "interval":
+    if kind == "interval" and not base_b and got >= 3 and node.kind == "interval" and positions:
         xs = torch.sort(pts.as_tensor.double().reshape(-1)).values
         df = xs[1:] - xs[:-1]
         if float(df.max() - df.min()) > 1e-4 * float(abs(df).max() + 1e-9) + 1e-6:
@@ -772,10 +918,11 @@ def parse_reply(r):
 def check_case(case, replies, rep):
     tp = common.use_repo()
     import torch
+    rel = case.get("rel") or REL
     node = geomgen.from_json(case["dom"])
     envs = case["envs"] or [{}]
     k = len(case["envs"])
-    inp = dict(dom=case["dom"], expression=vtokens(node), params=case["params"], envs=case["envs"])
+    inp = dict(dom=case["dom"], expression=vtokens(node), params=case["params"], envs=case["envs"], mode=case["mode"], rel=case.get("rel"), positions=case.get("positions"))
     vols = [parse_reply(r) for kind, r in replies if kind == "vol"]
     pevs = [parse_reply(r) for kind, r in replies if kind == "peval"]
     extra = {kind: r for kind, r in replies if kind in ("count", "grid")}
@@ -815,7 +962,7 @@ def check_case(case, replies, rep):
         got = rows[i] if len(rows) > 1 else rows[0]
         mv, mw, _ = vols[i]
         rinp = dict(inp, row=i, env=e)
-        if not close(got, mv):
+        if not close(got, mv, rel):
             rep.disagree("drivers/C10.lean vol: value of volume() for one parameter row", rinp, got, mv)
         try:
             true = measure(node, fenv(e))
@@ -823,8 +970,9 @@ def check_case(case, replies, rep):
             true = None
         if true is not None:
             rep.count("oracle:measure-known")
-            if not math.isfinite(got) or not close(got, true):
-                rep.fail(f"volume() = {got:.7g} but the measure of the domain is {true:.7g} (parameter row {i}: {e})", rinp)
+            if not math.isfinite(got) or not close(got, true, rel):
+                rep.fail(f"volume() = {got:.12g} but the measure of the domain is {true:.12g} (parameter row {i}: {e}"
+                         f"{', constants given as ' + case['mode'][6:] if case['mode'].startswith('dtype:') else ''})", rinp)
             elif not got > 0 and true > 0:
                 rep.fail(f"volume() = {got} is not positive", rinp)
         else:
@@ -1115,7 +1263,7 @@ def replay(ctx, obj):
     if "poly" in inp:
         c10_poly.check(dict(inp, id=0), rep)
         return common.finish(ctx, rep, lean)
-    case = dict(id=0, mode="replay", dom=inp["dom"], params=inp["params"], envs=inp["envs"], sigma=inp.get("sigma"),
-                density=inp.get("density"))
+    case = dict(id=0, mode=inp.get("mode", "replay"), dom=inp["dom"], params=inp["params"], envs=inp["envs"], sigma=inp.get("sigma"),
+                density=inp.get("density"), rel=inp.get("rel"), positions=inp.get("positions"))
     run(ctx, rep, [case])
     return common.finish(ctx, rep, lean)
